@@ -20,6 +20,61 @@ pub fn cfg_text2(d1: u32, d2: u32) -> String {
     )
 }
 
+/// hold-for-duration next to EXPLICIT releases of the same virtual key v1 (marker w):
+/// f: hold-for-duration D v1; g: a second hold-for-duration D2 v1; h: release-vkey v1 on press;
+/// e: (release-key w); a-d plain keys
+pub fn cfg_text3(d1: u32, d2: u32) -> String {
+    format!(
+        "(defvirtualkeys v0 q v1 w v2 y)\n(defsrc a b c d e f g h)\n(deflayer l0 1 2 3 4 (release-key w) (hold-for-duration {d1} v1) (hold-for-duration {d2} v1) (on-press-fakekey v1 release))\n(deflayer l1 1 1 1 1 1 1 1 2)\n"
+    )
+}
+
+/// a MACRO operating virtual key v1 (marker w) next to keys with custom actions of their own:
+/// a: (macro press-v1 D release-v1); b: (macro tap-v1); c: (macro toggle-v1 D toggle-v1);
+/// d: (on-press-fakekey v0 tap); e: (on-release-fakekey v0 tap); f: mlft; g: (on-press-fakekey v0 toggle);
+/// h: (macro toggle-v1)
+pub fn cfg_text4(d: u32) -> String {
+    format!(
+        "(defvirtualkeys v0 q v1 w v2 y)\n(defsrc a b c d e f g h)\n(deflayer l0 (macro (on-press-fakekey v1 press) {d} (on-press-fakekey v1 release)) (macro (on-press-fakekey v1 tap)) (macro (on-press-fakekey v1 toggle) {d} (on-press-fakekey v1 toggle)) (on-press-fakekey v0 tap) (on-release-fakekey v0 tap) mlft (on-press-fakekey v0 toggle) (macro (on-press-fakekey v1 toggle)))\n(deflayer l1 1 1 1 1 1 1 1 2)\n"
+    )
+}
+
+/// Family (2d) `macro-collision`: the macro's custom items fall due on every tick offset relative to
+/// the press and the release of a second key that produces a custom event of its own (keyberon
+/// delivers one custom event per tick: a macro's item must be put off by a tick, never dropped).
+fn macro_collision_family(lines: &mut Vec<String>, thorough: bool) {
+    let keys: Vec<u16> = ["a", "b", "c", "d", "e", "f", "g", "h"].iter().map(|k| code(k)).collect();
+    for d in if thorough { vec![10u32, 20, 50] } else { vec![10u32] } {
+        let cfg = cfg_text4(d);
+        for mk in [keys[0], keys[1], keys[2], keys[7]] {
+            for other in [keys[3], keys[4], keys[5], keys[6]] {
+                for off in 0..=d + 5 {
+                    for hold in [1u32, 2, 7] {
+                        for early_release in [false, true] {
+                            let mut h = vec![KEv::L(HEv::Press(0, mk))];
+                            if early_release {
+                                h.push(KEv::L(HEv::Release(0, mk)));
+                            }
+                            if off > 0 {
+                                h.push(KEv::L(HEv::Tick(off)));
+                            }
+                            h.push(KEv::L(HEv::Press(0, other)));
+                            h.push(KEv::L(HEv::Tick(hold)));
+                            h.push(KEv::L(HEv::Release(0, other)));
+                            h.push(KEv::L(HEv::Tick(d + 10)));
+                            if !early_release {
+                                h.push(KEv::L(HEv::Release(0, mk)));
+                            }
+                            h.push(KEv::L(HEv::Tick(80)));
+                            lines.push(mk_kline("KAN", false, &cfg, &h));
+                        }
+                    }
+                }
+            }
+        }
+    }
+}
+
 fn tap(h: &mut Vec<KEv>, k: u16, hold: u32, after: u32) {
     h.push(KEv::L(HEv::Press(0, k)));
     h.push(KEv::L(HEv::Tick(hold)));
@@ -31,7 +86,13 @@ pub fn gen(tier: &str, seed: u64) -> Vec<String> {
     let mut r = Rng::new(seed ^ 0xC18);
     let thorough = tier == "thorough";
     let mut lines = vec![];
+    if tier == "macrocol" {
+        macro_collision_family(&mut lines, false);
+        return lines;
+    }
     let keys: Vec<u16> = ["a", "b", "c", "d", "e", "f", "g", "h"].iter().map(|k| code(k)).collect();
+    // (2d) a macro operating a virtual key while other keys produce custom events
+    macro_collision_family(&mut lines, thorough);
     // (1) settled operation sequences on v0 through keys and direct calls
     let n1 = if thorough { 6000 } else { 800 };
     for i in 0..n1 {
@@ -87,6 +148,54 @@ pub fn gen(tier: &str, seed: u64) -> Vec<String> {
                     h.push(KEv::L(HEv::Tick(gap)));
                     tap(&mut h, k1, 1, 0);
                 }
+                h.push(KEv::L(HEv::Tick(d1 + d2 + 30)));
+                lines.push(mk_kline("KAN", false, &cfg, &h));
+            }
+        }
+    }
+    // (2c) hold-for-duration and explicit releases of the same virtual key (remark R2): activate,
+    // release it by release-vkey / a direct release call / release-key of its code, activate again -
+    // inside the first countdown, at its end, after it; operations >= 8 ticks apart (settled)
+    for (d1, d2) in [(50u32, 50u32), (40, 20), (20, 60)] {
+        let cfg = cfg_text3(d1, d2);
+        let (ke, kf, kg, kh) = (keys[4], keys[5], keys[6], keys[7]);
+        for how in 0..3u32 {
+            let release = |h: &mut Vec<KEv>, after: u32| match how {
+                0 => tap(h, kh, 1, after),
+                1 => tap(h, ke, 1, after),
+                _ => {
+                    h.push(KEv::Fake(1, 1, 1));
+                    h.push(KEv::L(HEv::Tick(after + 1)));
+                }
+            };
+            for g1 in [8u32, 12] {
+                // the second activation: inside the first countdown, around its end, well after it
+                for g2 in [8u32, 10, d1.saturating_sub(g1 + 9), d1.saturating_sub(g1 + 2), d1.saturating_sub(g1 + 1), d1.saturating_sub(g1), d1.saturating_sub(g1) + 1, d1 + 8, d1 + 30] {
+                    if g2 < 8 {
+                        continue;
+                    }
+                    for second in [kf, kg] {
+                        let mut h = vec![];
+                        tap(&mut h, kf, 1, g1 - 1);
+                        release(&mut h, g2 - 1);
+                        tap(&mut h, second, 1, 0);
+                        h.push(KEv::L(HEv::Tick(d1 + d2 + 30)));
+                        lines.push(mk_kline("KAN", false, &cfg, &h));
+                        // ... and a third operation: another release / another activation
+                        let mut h3 = vec![];
+                        tap(&mut h3, kf, 1, g1 - 1);
+                        release(&mut h3, g2 - 1);
+                        tap(&mut h3, second, 1, 9);
+                        release(&mut h3, 9);
+                        tap(&mut h3, kf, 1, 0);
+                        h3.push(KEv::L(HEv::Tick(d1 + d2 + 30)));
+                        lines.push(mk_kline("KAN", false, &cfg, &h3));
+                    }
+                }
+                // controls: release only (the hold ends early and stays ended), re-arm without a release
+                let mut h = vec![];
+                tap(&mut h, kf, 1, g1 - 1);
+                release(&mut h, 0);
                 h.push(KEv::L(HEv::Tick(d1 + d2 + 30)));
                 lines.push(mk_kline("KAN", false, &cfg, &h));
             }
